@@ -14,6 +14,8 @@ HANDLES = {
     "ResolvedNode": "cstree::syntax::ResolvedNode<K, {D}>", "ResolvedToken": "cstree::syntax::ResolvedToken<K, {D}>",
     "ResolvedElement": "cstree::syntax::ResolvedElement<K, {D}>", "ResolvedElementRef": "cstree::syntax::ResolvedElementRef<'static, K, {D}>",
 }
+# witness syntax-kind types: name -> (rust type, Send?Sync?)
+KINDS = {"plain": ("K", "TT"), "brand": ("KBrand", "FF"), "rcbrand": ("KRc", "FF"), "cellref": ("KCellRef", "TF")}
 GEN = {"none": ("'static", "FF"), "send": ("Send + 'static", "TF"), "sync": ("Sync + 'static", "FT"), "both": ("Send + Sync + 'static", "TT")}
 # what a text view borrows its resolver as: name -> (rust type, Send?Sync?)
 VIEW_RES = {"dyn": ("dyn Resolver<TokenKey>", "FF"), "dynss": ("dyn Resolver<TokenKey> + Send + Sync", "TT"), "ok": ("OkResolver", "TT"),
@@ -31,6 +33,17 @@ impl Syntax for K {
     fn static_text(self) -> Option<&'static str> { None }
 }
 pub struct PtrHolder(*const u8);
+macro_rules! kind_type { ($n:ident, $f:ty) => {
+    #[derive(Debug, Clone, Copy, PartialEq, Eq)] pub struct $n(u32, std::marker::PhantomData<$f>);
+    impl Syntax for $n {
+        fn from_raw(raw: RawSyntaxKind) -> Self { $n(raw.0, std::marker::PhantomData) }
+        fn into_raw(self) -> RawSyntaxKind { RawSyntaxKind(self.0) }
+        fn static_text(self) -> Option<&'static str> { None }
+    }
+} }
+kind_type!(KBrand, *const ());
+kind_type!(KRc, std::rc::Rc<u8>);
+kind_type!(KCellRef, std::cell::Cell<u8>);
 fn assert_send<T: Send>() {}
 fn assert_sync<T: Sync>() {}
 #[derive(Default)] pub struct RcResolver(std::rc::Rc<std::cell::RefCell<Vec<String>>>);
@@ -77,6 +90,11 @@ class C08(Property):
         for t in ("GreenNode", "GreenToken"):
             for tr in ("Send", "Sync"):
                 res.append(("exhaustive", "A green %s %s" % (t, tr)))
+        # the kind parameter is a type-level tag: handles over thread-safe data are Send + Sync whatever the kind type is
+        for h in HANDLES:
+            for k, (_, kbits) in KINDS.items():
+                for tr in ("Send", "Sync"):
+                    res.append(("exhaustive", "A skind %s:%s %s %s" % (h, k, kbits, tr)))
         # borrowed text views over every way of borrowing a resolver
         for i, (_, ibits) in VIEW_RES.items():
             for w in ("unit", "cell", "rc", "arcmutex"):
@@ -98,6 +116,10 @@ class C08(Property):
         if t[1] == "ctor":
             c = "cstree::syntax::SyntaxNode::<K, ()>" if t[2] == "node" else "cstree::syntax::ResolvedNode::<K, ()>"
             return "fn f%d() { let _ = %s::new_root_with_resolver(green(), %s::default()); }" % (i, c, RES[t[3]][0])
+        if t[1] == "skind":
+            h, k = t[2].split(":")
+            ty = HANDLES[h].replace("<K,", "<%s," % KINDS[k][0]).replace("{D}", "String")
+            return "fn f%d() { assert_%s::<%s>() }" % (i, t[4].lower(), ty)
         if t[1] == "text":
             return "fn f%d() { assert_%s::<cstree::text::SyntaxText<'static, 'static, %s, K, %s>>() }" % (i, t[6].lower(), VIEW_RES[t[2]][0], WIT[t[4]][0])
         return "fn f%d() { assert_%s::<cstree::green::%s>() }" % (i, t[3].lower(), t[2])
@@ -129,6 +151,9 @@ class C08(Property):
         elif t[1] == "ctor":
             exp = "accept" if t[4] == "TT" else "reject"
             what = "%s::new_root_with_resolver with a %s resolver" % (t[2], t[3])
+        elif t[1] == "skind":
+            exp = "accept"
+            what = "%s over thread-safe data with the kind type %s: %s" % (t[2].split(":")[0], KINDS[t[2].split(":")[1]][0], t[4])
         elif t[1] == "text":
             exp = "accept" if (t[3][1] == "T" and t[5] == "TT") else "reject"
             what = "SyntaxText<%s, K, %s>: %s" % (VIEW_RES[t[2]][0], t[4], t[6])
@@ -140,7 +165,7 @@ class C08(Property):
 
     def nontrivial(self, case, impl):
         t = case.split(" ")
-        return t[1] == "gen" or (t[1] in ("handle", "ctor") and t[4] != "TT") or (t[1] == "text" and not (t[3][1] == "T" and t[5] == "TT"))
+        return t[1] == "gen" or (t[1] in ("handle", "ctor") and t[4] != "TT") or (t[1] == "text" and not (t[3][1] == "T" and t[5] == "TT")) or (t[1] == "skind" and t[3] != "TT")
 
     def known_class(self, case, impl, why):
         return None
